@@ -73,7 +73,22 @@ pub const CORPUS: [&str; 60] = [
     "a ^@ Map < K, |x, y| x, b",
 ];
 
+/// the unit list is computed in a CHILD process: finding out which (input, config) pairs are accepted means expanding them, and that
+/// must not be part of this process's history (a recorded history has to be self-contained to be replayable)
 fn units(which: &str) -> Vec<(usize, usize)> {
+    let exe = std::env::current_exe().unwrap();
+    let out = std::process::Command::new(exe).args(["c20", "units", which]).output().expect("child");
+    String::from_utf8(out.stdout)
+        .unwrap()
+        .lines()
+        .filter_map(|l| {
+            let mut it = l.split_whitespace();
+            Some((it.next()?.parse().ok()?, it.next()?.parse().ok()?))
+        })
+        .collect()
+}
+
+fn units_here(which: &str) -> Vec<(usize, usize)> {
     // (corpus index, config) pairs that are accepted
     let mut v = vec![];
     for (i, c) in CORPUS.iter().enumerate() {
@@ -126,6 +141,12 @@ pub fn run(args: &[String]) {
         }
         "hist" => hist(args),
         "typing" => typing(args),
+        "seq" => seq(args),
+        "units" => {
+            for (i, c) in units_here(&args[1]) {
+                println!("{} {}", i, c);
+            }
+        }
         "conc" => conc(args),
         _ => std::process::exit(2),
     }
@@ -221,6 +242,31 @@ fn hist(args: &[String]) {
         us.iter().take(3).map(|(i, c)| format!("{{\"invocation\":{}}}", jesc(&format!("{}!{{ {} }}", CONFIG_NAMES[*c], CORPUS[*i])))).collect::<Vec<_>>().join(","),
         t0.elapsed().as_secs_f64()
     );
+}
+
+/// replay of one history: `c20 seq <file>` with one `config<TAB>input` per line; every position is expanded in THIS process in order and
+/// compared with the output of the same invocation as the only expansion of a fresh child process
+fn seq(args: &[String]) {
+    let text = std::fs::read_to_string(&args[1]).expect("read");
+    let exe = std::env::current_exe().unwrap();
+    for (k, line) in text.lines().enumerate() {
+        let (cfgname, input) = match line.split_once('\t') {
+            Some(x) => x,
+            None => continue,
+        };
+        let cfg = config_by_name(cfgname).expect("config");
+        let here = out_of(input, cfg);
+        let tmp = format!("{}.{}", args[1], k);
+        std::fs::write(&tmp, input).unwrap();
+        let out = std::process::Command::new(&exe).args(["expand", cfgname, &tmp]).output().expect("child");
+        let _ = std::fs::remove_file(&tmp);
+        let fresh = String::from_utf8(out.stdout).unwrap();
+        let same = fresh.trim() == here.trim();
+        println!("position {}: {}!{{ {} }}: output equals the fresh-process output: {}", k, cfgname, input, same);
+        if !same {
+            println!("  in this history: {}\n  fresh process:   {}", &here[..here.len().min(400)], &fresh.trim()[..fresh.trim().len().min(400)]);
+        }
+    }
 }
 
 fn out_of(s: &str, cfg: usize) -> String {
